@@ -89,6 +89,11 @@ func runSchedJob(c *Ctl, job *Job, idx int, res *RunResult) {
 		// of its next statements while scheduling passes go on (e.g. between its two status stores)
 		prof.PreemptPct, prof.PreemptDepth = 25, 12
 	}
+	if world >= len(dagShapes)*2 && world%16 == 11 {
+		// one pipeline scheduled by two loops: what one loop sees of a stage that is just finishing
+		// in the other is the interesting part
+		prof.PreemptPct, prof.PreemptDepth = 60, 8
+	}
 	prof.Gen = gen
 	if !c.Ch.replaying {
 		c.Ch.Reseed(seedFor(job.Base^0x5eed0001, world))
